@@ -12,7 +12,8 @@ ID = "C19"
 LEVEL = "exploration"
 RULE = (
     "The harness owns the schedule: 1-3 logical threads each run a program of nested condom-wrapped calls (nesting words such as "
-    "(), (()), ()(), (()()) and bodies that raise z3.Z3Exception); a trace function hands control to a controller before EVERY line "
+    "(), (()), ()(), (()()), bodies that raise z3.Z3Exception or an exception that is not a Z3Exception, and nested errors that "
+    "leave the outer wrapped call too, each followed by a further call); a trace function hands control to a controller before EVERY line "
     "of _enter_z3, _exit_z3, z3_condom and the call bodies, and backend_z3's `gc` / `_gc_lock` globals are rebound to a model flag and "
     "a scheduler-aware lock. Schedules: for every 1- and 2-thread configuration (programs, GC initially on/off) the COMPLETE state space "
     "(every scheduling choice in every reachable state, visited-state pruning); for 3-thread configurations every schedule with at most "
@@ -42,6 +43,11 @@ PROGRAMS = {
     "(()())": [{"kids": [dict(L), dict(L)], "raise": False}],
     "(())()": [{"kids": [dict(L)], "raise": False}, dict(L)],
     "(()!)": [{"kids": [dict(L)], "raise": True}],
+    # an exception that is not a Z3Exception leaves a wrapped call, and another call follows on the same thread
+    "(#)()": [{"kids": [], "raise": "other"}, dict(L)],
+    # the error of a nested call (already converted to ClaripyZ3Error) leaves the outer wrapped call too, then another call
+    "((!)^)()": [{"kids": [{"kids": [], "raise": True}], "raise": False, "propagate": True}, dict(L)],
+    "((#)^)": [{"kids": [{"kids": [], "raise": "other"}], "raise": False, "propagate": True}],
 }
 SMALL = ("()", "(!)", "(())", "()()")
 
